@@ -40,27 +40,9 @@ func checkC11(r *Run) {
 		ShapeCase{"", "0"})
 	r.RequireOnSuccess("C11-R1", "params.DropletPrecisionCheck", req("amount divisible by 10^(6-precision)", "($1 % params.DropletPrecisionToDivisor($0)) == 0"))
 	r.ExhaustiveRejects("C11-R1", "params.DropletPrecisionCheck", req("divisibility", "($1 % params.DropletPrecisionToDivisor($0)) == 0"))
-	// TransactionIsLocked: true iff some input address is in the locked set; false only after scanning all
-	fn := r.fn("C11-R1", "transaction.TransactionIsLocked")
-	if fn != nil {
-		ff := r.P.Facts(fn)
-		for _, ex := range ff.Exits() {
-			var fs []string
-			for _, a := range ff.Must(ex.Block) {
-				fs = append(fs, a.S)
-			}
-			switch ex.Desc {
-			case "true":
-				_, m := matchAny([]string{"lookup(set{params.Distribution.LockedAddresses($0)[i]}[cipher.Address.String($1[i].Body.Address)])#1"}, fs)
-				r.Check("C11-R1", "TransactionIsLocked: true only for an input owned by a locked address", r.P.Pos(ex.Pos), m, "")
-			case "false":
-				_, m := matchAny([]string{"forall(i < len($1)): !lookup(set{params.Distribution.LockedAddresses($0)[i]}[cipher.Address.String($1[i].Body.Address)])#1"}, fs)
-				r.Check("C11-R1", "TransactionIsLocked: false only after every input was checked against the full locked set", r.P.Pos(ex.Pos), m, "")
-			default:
-				r.Check("C11-R1", "TransactionIsLocked: unexpected return "+ex.Desc, r.P.Pos(ex.Pos), false, "")
-			}
-		}
-	}
+	ruleTransactionIsLocked(r, "C11-R1")
+	ruleUserConstraints(r, "C11-R1")
+	ruleKnownTxnVerdictRefreshed(r, "C11-R2")
 	// R2 error classes
 	ruleVerifyParamsSites(r, "C11-R5")
 	ruleHardBeforeSoft(r, "C11-R2")
